@@ -18,6 +18,7 @@ fn main() {
         Some("worker") => worker::worker_main(&args[2..]),
         Some("check") => checks::main(&args[2..]),
         Some("baseline") => checks::baseline::main(&args[2..]),
+        Some("selftest") => checks::selftest::main(&args[2..]),
         _ => {
             eprintln!("usage: ctesim check <ID> <quick|thorough> [--replay FILE] | worker ... | baseline");
             2
